@@ -12,5 +12,8 @@ out = os.path.join(HERE, "..", "build", unit + ("_canary" if canary else "") + "
 open(out, "w").write(t)
 extra = [a for a in sys.argv[2:] if a != "--canary"]
 p = subprocess.run(["verus", out, "--multiple-errors", "30", "--triggers-mode", "silent"] + extra, capture_output=True, text=True)
+for f in fns:
+    if getattr(f, "lost", None):
+        print("QUARANTINED:", f.name, "-", f.lost)
 print(p.stdout[-3000:])
 print(p.stderr[-12000:])
